@@ -13,6 +13,8 @@ namespace LS
 
 abbrev Bytes := List UInt8
 
+deriving instance DecidableEq for Except
+
 def USIZE : Nat := 2 ^ 64
 def MAX_INLINE : Nat := Gen.maxInlineSize
 def MAX_LEN : Nat := Gen.heapMaxLen
@@ -147,10 +149,11 @@ def Heap.release (hp : Heap) (a : Nat) : Except UB Heap :=
   | some .freed => .error .useAfterFree
   | none => .error .useAfterFree
 
-/-- `fetch_add(1, Relaxed)` of `make_shallow_clone` -/
+/-- `fetch_add(1, Relaxed)` of `make_shallow_clone`. The count is an unbounded `Nat`: the
+`ref_count_overflow` path (more than `isize::MAX` live clones) is outside the model. -/
 def Heap.retain (hp : Heap) (a : Nat) : Except UB Heap :=
   match hp.get? a with
-  | some b => if b.rc ≥ 2 ^ 63 then .error .rcOverflow else .ok (hp.setBlock a { b with rc := b.rc + 1 })
+  | some b => .ok (hp.setBlock a { b with rc := b.rc + 1 })
   | none => .error .useAfterFree
 
 inductive ReallocRes
